@@ -28,12 +28,22 @@ func (c *c08Oracle) Check(w *World, o *Obs) []Violation {
 	fmt.Sscanf(parts[0], "%d", &reqs)
 	fmt.Sscanf(parts[1], "%d", &mode)
 	mp := parts[2] == "1"
-	if ck := o.presented("cookie"); ck != nil && o.uidBefore() == "" && w.Cfg.hasModule("remember") {
-		return nil // the remember middleware may change the session inside this very request
-	}
 	uid := o.uidBefore()
 	half := o.SessBefore["halfauth"] != ""
 	twofa := o.SessBefore["twofactor"] != ""
+	if ck := o.presented("cookie"); ck != nil && uid == "" && w.Cfg.hasModule("remember") && !w.Cfg.hasSetup("expire") {
+		// the remember middleware authenticates inside this very request: a
+		// usable cookie makes its account the (half-authenticated) user
+		switch {
+		case ck.Known != nil && ck.Status == "valid" && ck.Known.Acct >= 0 && ck.Known.Acct < len(w.Accts) && o.FaultFired == "":
+			uid, half = w.Accts[ck.Known.Acct].PID, true
+			w.Stats.Reach["c08_cookie_authenticated_request"]++
+		case ck.Known == nil || ck.Status == "spent" || ck.Status == "revoked" || ck.Status == "superseded":
+			// dead cookie: anonymous
+		default:
+			return nil
+		}
+	}
 	reqsMet := (reqs&1 == 0 || !half) && (reqs&2 == 0 || twofa)
 	storage := "ok"
 	if o.FaultFired == "db.Load" {
@@ -92,7 +102,9 @@ func (c *c08Oracle) Check(w *World, o *Obs) []Violation {
 				fmt.Sprintf("handler ran although uid=%q loadable=%v halfauth=%v twofactor=%v reqs=%d storage=%s", uid, loadable, half, twofa, reqs, storage)))
 			break
 		}
-		if storage == "err" && o.Status == 500 {
+		// a session that names a user but misses a requirement may meet the
+		// storage error first; a session that names nobody has nothing to load
+		if storage == "err" && o.Status == 500 && uid != "" {
 			w.Stats.Reach["c08_refused_or_500"]++
 			break
 		}
@@ -158,7 +170,8 @@ type c08Gen struct {
 }
 
 var pathSegs = []string{"a", "Reports", "x y", "50%", "a&b", "k=v", "a+b", "ü", "日本", "semi;colon", "q?x", "frag#1", "%41", "..a", "~u", "@", "!", "(1)", "*", ","}
-var rawQueries = []string{"", "", "x=1", "a=b&c=d", "q=hello%20world", "q=a+b", "redir=%2Fevil", "k=%26%3D", "empty=", "flag", "a=1&a=2", "u=%C3%BC", "x=1;y=2"}
+var rawQueries = []string{"", "", "x=1", "a=b&c=d", "q=hello%20world", "q=a+b", "redir=%2Fevil", "k=%26%3D", "empty=", "flag", "a=1&a=2", "u=%C3%BC", "x=1;y=2",
+	"next=https://example.com/cb", "file=/docs/../secret/report", "dir=/home/me/", "a=//b", "p=./x", "t=/"}
 
 func (g *c08Gen) sweep(w *World, b int) []Step {
 	var out []Step
@@ -201,7 +214,7 @@ func (g *c08Gen) Next(w *World, n int) *Step {
 		a := g.r.Intn(len(w.Accts))
 		pw := &SecretRef{Kind: "password", A: a}
 		var reach []Step
-		states := []string{"anon", "login", "login", "halfauth", "twofa", "pending", "deleted", "halfauth_twofa"}
+		states := []string{"anon", "login", "login", "halfauth", "twofa", "pending", "deleted", "halfauth_twofa", "cookie_only", "cookie_only"}
 		switch states[g.r.Intn(len(states))] {
 		case "anon":
 			reach = []Step{{Kind: "logout", B: b}}
@@ -225,6 +238,20 @@ func (g *c08Gen) Next(w *World, n int) *Step {
 			}
 		case "deleted":
 			reach = []Step{{Kind: "login", B: b, A: a, Sec: pw}, {Kind: "op_delete", B: b, A: a}}
+		case "cookie_only":
+			// every probe is the first request the remember cookie authenticates
+			if w.Cfg.hasModule("remember") {
+				reach = []Step{{Kind: "login", B: b, A: a, Sec: pw, RM: true}}
+				sw := g.sweep(w, b)
+				for i := 0; i < 8 && i < len(sw); i++ {
+					sw[i].Fault = nil
+					reach = append(reach, Step{Kind: "drop_session", B: b}, sw[i])
+				}
+				g.queue = reach
+				st := g.queue[0]
+				g.queue = g.queue[1:]
+				return &st
+			}
 		}
 		g.queue = append(reach, g.sweep(w, b)...)
 	}
@@ -322,6 +349,21 @@ func (c *c09Oracle) Check(w *World, o *Obs) []Violation {
 			}
 			if o.uidAfter() == "" && st.Kind != "logout" && !(st.Kind == "replay" && strings.HasSuffix(o.Target, "/logout")) {
 				out = append(out, viol("C09", "live_session_wiped", "jar", o, fmt.Sprintf("idle for only %s (ExpireAfter %s) yet the session lost its user", gap, E)))
+			}
+		}
+	}
+	// a successful login must leave an authenticated session, also when the
+	// request itself arrived on an expired session
+	if st.Kind == "login" && o.FaultFired == "" {
+		pid := w.pidOf(st.A, st)
+		row := o.RowsBefore[pid]
+		if p := o.presented("password"); p != nil && p.Status == "valid" && row != nil && !w.rowHasFactor(row) && (!w.Cfg.hasModule("confirm") || row.Confirmed) &&
+			!(w.Cfg.hasModule("lock") && !row.Locked.Before(o.Now)) {
+			if o.uidAfter() != pid {
+				out = append(out, viol("C09", "login_lost", "login", o,
+					fmt.Sprintf("a correct login of %s (session before: uid=%q) ended without an authenticated session (uid after %q)", pid, uid, o.uidAfter()), "had_uid", fmt.Sprint(uid != "")))
+			} else if uid != "" {
+				w.Stats.Reach["c09_relogin_over_existing_session"]++
 			}
 		}
 	}
